@@ -28,7 +28,8 @@ Proof.
       - destruct (tw_flushed t) eqn:Ef; [apply IH; exact Ht|].
         destruct (IH (mkTW true (tw_code t) true (if tw_code t =? 200 then tw_cw t else tw_code t)) eq_refl) as (I1 & I2).
         rewrite I1, I2. split; [|reflexivity]. unfold tw_done. cbn. rewrite Ef.
-        destruct (tw_code t =? 200); cbn; rewrite ?andb_false_r; reflexivity. }
+        destruct (tw_code t =? 200); cbn; rewrite ?andb_false_r; reflexivity.
+      - apply IH. exact Ht. }
     assert (E0 : tw_op (mkTW false 200 false 200) (HWriteHeader c) = mkTW true c false 200) by reflexivity.
     cbn [fold_left]. rewrite E0.
     destruct (H ops (mkTW true c false 200) eq_refl) as (H1 & _). rewrite H1.
@@ -73,6 +74,36 @@ Proof.
   - cbn zeta. fold ok. split; [destruct ok; lia|]. split; [discriminate|]. split; [discriminate|].
     intros _ _. split; [reflexivity|]. split; [reflexivity|]. split; [destruct ok; reflexivity|].
     split; [|reflexivity]. rewrite <- Hok. destruct ok; split; intros; try discriminate; reflexivity.
+Qed.
+
+(* the context over the life of the call: live on entry and admitted => one downstream run and
+   one record by the table alone; a context that has ended when the downstream returns (client
+   gone, the call's own deadline passed) changes nothing at all *)
+Lemma wrapx_live_on_entry : forall k x d,
+  through_breaker k = true -> x_done_at_entry x = false ->
+  let r := wrapx k false x d in
+  wr_invoked r = 1 /\ wr_drop r = 0 /\ wr_succ r + wr_fail r = 1 /\
+  (wr_fail r = 1 <-> (d = DPanic \/ w_acceptable k d = false)) /\
+  r = wrapx k false XLive d.
+Proof.
+  intros k x d Hk Hx. cbn zeta. unfold wrapx. rewrite Hx. cbn [x_done_at_entry].
+  split; [|split; [|split; [|split; [|reflexivity]]]];
+    rewrite (wrap_through k false false d Hk), andb_false_r; cbn zeta;
+    set (ok := match d with DPanic => false | _ => w_acceptable k d end);
+    assert (Hok : ok = false <-> d = DPanic \/ w_acceptable k d = false)
+      by (unfold ok; destruct d; split; auto; intros [H|H]; try discriminate H; auto);
+    cbn [wr_invoked wr_succ wr_fail wr_drop]; try reflexivity.
+  - destruct ok; reflexivity.
+  - rewrite <- Hok. destruct ok; split; intros; try discriminate; reflexivity.
+Qed.
+
+Lemma wrapx_done_on_entry : forall k rej x d,
+  through_breaker k = true -> w_uses_ctx k = true -> x_done_at_entry x = true ->
+  let r := wrapx k rej x d in
+  wr_invoked r = 0 /\ wr_succ r + wr_fail r + wr_drop r = 0 /\ wr_seen r = SCtxErr.
+Proof.
+  intros k rej x d Hk Hu Hx. cbn zeta. unfold wrapx. rewrite Hx.
+  destruct (wrap_once k rej true d Hk) as (_ & H & _). cbn zeta in H. rewrite Hu in H. exact (H eq_refl).
 Qed.
 
 Lemma wrap_bypass : forall rej ctxdone d,
